@@ -13,6 +13,25 @@ def replay(ob):
     import odl
     import numpy as np
     from odl.operator import operator as O
+    if ob.get('unit', '').startswith('pointwise-norm/'):
+        cfg = ob.get('config') or {}
+        p, k = float(cfg.get('exponent', 2)), int(cfg.get('components', 2))
+        base = odl.uniform_discr(0, 1, 4)
+        for w in (np.arange(1, k + 1) * 1.5, 2.0, None):
+            pn = odl.PointwiseNorm(base ** k, exponent=p, weighting=w)
+            rng = np.random.default_rng(11)
+            F = pn.domain.element([rng.uniform(0.5, 2.0, 4) * (-1) ** j for j in range(k)])
+            F0 = F.copy()
+            d = pn.domain.element([rng.standard_normal(4) for j in range(k)])
+            got = pn.derivative(F)(d).asarray()
+            t = 1e-6
+            fd = ((pn(F + t * d) - pn(F - t * d)) / (2 * t)).asarray()
+            if not np.allclose(got, fd, rtol=1e-5, atol=1e-7):
+                return {'reproduced': True, 'detail': 'PointwiseNorm(rn^%d, exponent=%s, weighting=%r).derivative(F)(d) = %r, central differences give %r' % (k, p, w, got, fd),
+                        'input': {'exponent': p, 'weighting': repr(w)}}
+            if (F - F0).norm() != 0:
+                return {'reproduced': True, 'detail': 'derivative(F) modified F'}
+        return {'reproduced': False, 'detail': 'derivative matches central differences for array, constant and default weights'}
     if cls is None or not hasattr(O, cls):
         return {'reproduced': False, 'detail': 'no native concretisation for this obligation kind'}
     rng = np.random.default_rng(7)
